@@ -276,6 +276,86 @@ fn dispatch_events_per_event_body(&mut self, sources_at_lookup: &SourceList<'l, 
     first_error
 //@ endslice
 
+//@ slice src/loop_logic.rs / impl EventLoop<'l, Data> / fn dispatch_events :: loopbody <<for (event, reg_token, opt_disp) in>> props=C01,C06,C09,C02,C07 optional name=EventLoop::dispatch_events::per_event_body_preresolved
+//@ rw R10 1 <<self.handle.inner.sources.borrow()>> => <<sources>>
+//@ rw R10 1 <<self.handle.inner.sources.borrow_mut()>> => <<sources>>
+//@ rw R10 * <<&mut self.handle.inner.poll.borrow_mut()>> => <<&mut *poll>>
+//@ rw R10 * <<= self.handle.inner.poll.borrow_mut();>> => <<= &mut *poll;>>
+//@ rw R10 * <<self .handle .inner .sources_with_additional_lifecycle_events .borrow_mut()>> => <<(*extra)>>
+//@ closure? <<|entry| entry.source.is_none()>>
+-> (b: bool) ensures b == entry.vacant()
+//@ sig
+/// S1 slice for a shape the unchanged tree does not have but that independent seed agents wrote three times (an OPTIONAL
+/// slice: skipped when no loop has this head): the dispatchers of the whole batch are resolved BEFORE the loop, under one
+/// borrow of the slot list, and the loop runs over (event, reg_token, opt_disp) tuples. The body is held to the contract
+/// of per_event_body, unchanged. `opt_disp` is a free variable: what was found in the slot when the batch was resolved --
+/// user code (the callbacks of the earlier events of the batch) has run since, so nothing relates it to the slot list as
+/// it is when this event's turn comes (`sources_at_lookup`, a ghost-only parameter here). ASSUMED (the dropped part that
+/// builds the tuples is an iterator chain, outside Verus' reach): `reg_token` is the event's token with the sub-id
+/// cleared. A body that looks the slot up again has a second `borrow()` site and is undecided, not reported.
+fn dispatch_events_per_event_body_preresolved(&mut self, sources_at_lookup: &SourceList<'l, Data>, sources: &mut SourceList<'l, Data>, mut poll: &mut Poll, extra: &mut AdditionalLifecycleEventsSet, event: PollEvent, reg_token: TokenInner, opt_disp: Option<Rc<dyn EventDispatcher<Data> + 'l>>, data: &mut Data, mut first_error: Option<crate::Error>) -> (r: Option<crate::Error>)
+//@ spec
+    requires all_accept::<Data>(), sources_at_lookup.wf(), old(sources).wf(), reg_token == event.token.inner.forget(),
+    ensures
+        final(sources).wf(), final(sources)@.len() == old(sources)@.len(),
+        // C15/C02 (F10): an error of this event's source does not end the batch (this body has no early exit) and is not
+        // lost: the FIRST error of the batch is kept for dispatch_events to return once every event has been handled
+        first_error is Some ==> r == first_error,
+        // C09 / C01: whatever the source returned or requested, nothing is applied to ANY OTHER source: every other
+        // slot keeps its dispatcher and generation, every other entry of the lifecycle set stays
+        forall|k: int| 0 <= k < old(sources)@.len() && k != event.token.inner.forget().sid() ==> #[trigger] final(sources)@[k] == old(sources)@[k],
+        event.token.inner.forget().sid() < old(sources)@.len() ==> final(sources)@[event.token.inner.forget().sid()].tok() == old(sources)@[event.token.inner.forget().sid()].tok(),
+        extra_frame(old(extra), final(extra), RegistrationToken::of(event.token.inner.forget())),
+        // C01 / C06: an event whose (generation-checked) token addresses no occupied slot -- a removed source, or a
+        // slot that has since been reused -- is dropped without touching anything
+        (sources_at_lookup.lookup(event.token.inner.forget()) is None || sources_at_lookup@[event.token.inner.forget().sid()].vacant())
+            ==> r == first_error && final(sources)@ == old(sources)@ && final(extra)@ == old(extra)@,
+        // C02: an event for a live source IS handed to that source's dispatcher (must-call witness) ...
+        sources_at_lookup.lookup(event.token.inner.forget()) is Some ==> (sources_at_lookup@[event.token.inner.forget().sid()].disp() matches Some(d) ==> {
+            &&& d.w_processed(event.readiness, event.token)
+            // C09/C15 (stated on the whole body, so that it holds for EVERY way out of it -- also an early end of the iteration
+            // on a processing error): once a source has been processed, whatever it deferred has been taken out of the
+            // loop-wide cell and the cell reset; nothing is carried over to a later event or another source
+            &&& crate::ext::cell_was_set(&old(self).handle.inner.pending_action, PostAction::Continue)
+            // C06: ... and if the source is gone from its slot when processing is over (it removed itself, returned
+            // Remove, or the slot was reused meanwhile) it has been asked to unregister before the loop lets go of it
+            &&& ((final(sources).lookup(event.token.inner.forget()) is None || final(sources)@[event.token.inner.forget().sid()].vacant()))
+                    ==> d.w_unregister_called(RegistrationToken::of(event.token.inner.forget()))
+            // C14/C15: ... and its lifecycle entry does not outlive it: the dispatcher confirmed the unregistration, or the entry
+            // has been dropped here (defect F11: a FAILING unregister used to leave it behind => `unreachable!()` next dispatch)
+            &&& ((final(sources).lookup(event.token.inner.forget()) is None || final(sources)@[event.token.inner.forget().sid()].vacant()))
+                    ==> (!final(extra)@.contains(RegistrationToken::of(event.token.inner.forget())) || d.w_unregistered(RegistrationToken::of(event.token.inner.forget())) || d.w_deferred())
+        }),
+//@ entry
+    let ghost sources0 = *sources;
+    let ghost extra0 = *extra;
+    proof { broadcast use RegistrationToken::lemma_of, TokenInner::lemma_forget_idem, TokenInner::lemma_forget; }
+//@ after <<let result = disp.process_events(>>
+            let ghost res0 = result;
+//@ before <<match ret {>>
+            // C09: the deferred request is taken out of (and cleared from) the loop-global cell on EVERY path, so it
+            // can never be carried over to a later event or to another source
+            assert(crate::ext::cell_was_set(&self.handle.inner.pending_action, PostAction::Continue)); /*@props C09,C15,C07,C02*/
+            // C09: an explicit non-Continue return takes precedence over whatever was deferred
+            assert(res0 matches Ok(a0) ==> (!(a0 is Continue) ==> ret == a0)); /*@props C09,C06*/
+            // C15 (F10): a processing error is recorded, and nothing is applied for that event
+            assert(res0 is Err ==> (first_error is Some && ret is Continue)); /*@props C15,C02*/
+            // C01/C09/C14: every action below is applied to the source the event belongs to: the lookup key and the
+            // registration token handed to reregister/unregister are the event token with the sub-id cleared
+            assert(reg_token == event.token.inner.forget()); /*@props C01,C09,C14,C07*/
+//@ after <<match ret {>>
+            // C09: the effective action has been applied by now, to this source: Reregister re-registers (or is
+            // answered "deferred"), Disable asks it to unregister, Remove empties its slot, Continue changes nothing
+            // (a FAILED re-registration is recorded as the batch's error)
+            assert(ret is Reregister ==> disp.w_reregistered(RegistrationToken::of(reg_token)) || disp.w_deferred() || first_error is Some); /*@props C09*/
+            assert(ret is Disable ==> disp.w_unregister_called(RegistrationToken::of(reg_token))); /*@props C09,C07*/
+            assert(ret is Remove ==> sources.lookup(reg_token) is None || sources@[reg_token.sid()].vacant()); /*@props C09,C06*/
+            assert(ret is Continue ==> *sources == sources0 && *extra == extra0); /*@props C09*/
+//@ tail
+    first_error
+//@ endslice
+
+
 //@ slice src/loop_logic.rs / impl EventLoop<'l, Data> / fn dispatch_events :: stmts <<for event in self.synthetic_events.drain(..).chain(events)>> .. <<for event in self.synthetic_events.drain(..).chain(events)>> props=C15,C02,C05,C17 name=EventLoop::dispatch_events::batch_loop
 //@ rw R20 1 <<for event in self.synthetic_events.drain(..).chain(events)>> => <<for event in lit: batch>>
 //@ rw R10 1/2 <<self.handle.inner.sources.borrow()>> => <<sources_at_lookup>>
